@@ -169,6 +169,16 @@ pub fn c05_oracle(u: &Value, strat: &Strat, cfg: &Cfg, out: &Out<String>) -> (Op
             break;
         }
     }
+    // salts: one fresh salt per disclosure
+    {
+        let mut ss = BTreeSet::new();
+        for salt in &an.salts {
+            if !ss.insert(salt) {
+                bad.push(("duplicate_salt".into(), "c05_salt_repeated_within_credential".into(), salt.clone()));
+                break;
+            }
+        }
+    }
     if !cfg.decoys && !an.unmatched.is_empty() {
         bad.push(("wrong_disclosures".into(), "c05.2_unmatched_digest_without_decoys".into(), format!("{:?}", an.unmatched)));
     }
